@@ -421,6 +421,77 @@ type Ctx struct {
 	// documented block-level consolidation), and how a numeric literal compares with numeric
 	// text is not stated: those verdicts are DontCare.
 	MixedCols map[string]bool
+	// Override gives, per event (_vid) and column, the value as it is stored after the block-level
+	// consolidation "numbers + numeric text -> numbers" (see NumericConsolidation): such values are
+	// compared as numbers and are exempt from the MixedCols don't-care.
+	Override map[int64]map[string]Val
+}
+
+// NumericConsolidation computes Override for events grouped into blocks (one slice per flushed
+// block): in a block where a column holds at least one JSON number, no boolean, and only strings
+// that strconv parses as numbers, every value of the column is stored as a number.
+func (c *Ctx) NumericConsolidation(blocks [][]*Event) {
+	if c.Override == nil {
+		c.Override = map[int64]map[string]Val{}
+	}
+	for _, blk := range blocks {
+		type st struct{ num, str, other, bad bool }
+		cols := map[string]*st{}
+		for _, e := range blk {
+			f, _ := e.Flat()
+			for n, v := range f {
+				x := cols[n]
+				if x == nil {
+					x = &st{}
+					cols[n] = x
+				}
+				switch v.K {
+				case KInt, KFloat:
+					x.num = true
+				case KStr:
+					x.str = true
+					if _, ok := parseNumText(v.S); !ok {
+						x.bad = true
+					}
+				default:
+					x.other = true
+				}
+			}
+		}
+		for n, x := range cols {
+			if !(x.num && x.str && !x.bad && !x.other) {
+				continue
+			}
+			for _, e := range blk {
+				f, _ := e.Flat()
+				v, ok := f[n]
+				if !ok {
+					continue
+				}
+				if c.Override[e.Vid] == nil {
+					c.Override[e.Vid] = map[string]Val{}
+				}
+				if v.K == KStr {
+					nv, _ := parseNumText(v.S)
+					c.Override[e.Vid][n] = nv
+				} else {
+					c.Override[e.Vid][n] = v
+				}
+			}
+		}
+	}
+}
+
+// parseNumText mirrors the documented conversion: integer first, then float; NaN/Inf text is left
+// out (comparisons with NaN are not stated).
+func parseNumText(s string) (Val, bool) {
+	if i, err := strconv.ParseInt(s, 10, 64); err == nil {
+		return Int(i), true
+	}
+	if f, err := strconv.ParseFloat(s, 64); err == nil && !math.IsNaN(f) && !math.IsInf(f, 0) {
+		return Float(f), true
+	}
+	return Val{}, false
 }
 
 // NewCtx derives the context from the events of a dataset.
@@ -472,6 +543,14 @@ func (f *Filter) eval(e *Event, c *Ctx) (Tri, bool) {
 		return True, false
 	case "cmp":
 		if v, ok := flat[f.Field]; ok {
+			if c != nil && c.Override != nil {
+				if ov, ok := c.Override[e.Vid][f.Field]; ok {
+					if !f.Lit.IsNum() {
+						return DontCare, false
+					}
+					return EvalCmp(&ov, f.Op, *f.Lit), false
+				}
+			}
 			if c != nil && c.MixedCols[f.Field] && v.IsNum() {
 				return DontCare, false
 			}
